@@ -11,6 +11,13 @@ for PDUs the RTU response parser delimits as that PDU (otherwise the framing lay
 literal = 1 (reads only): the AddressRange is a struct literal (public fields, harness suffix `r`)
 instead of AddressRange::try_from; invalid literals must be REJECTED before anything is sent
 (finding F10, repaired by 3d39d18), valid ones behave like any other request.
+An 8th field `style` selects the API: 0 = async Channel, 1 = CallbackSession, 2 = FfiChannel
+(harness framing suffix `c` / `x`); the callback styles iterate the BitIterator / RegisterIterator
+they are handed and must see the values the Channel path returns (C04_paths_agree).
+A second family (`rtu_stream_family`) feeds the real RTU client raw byte chunks (harness
+`raw:<hex>+<hex>..[/Z|/E]`) and compares the request's result with the composed model
+`client_system_rtu` (reader o task o handle_response) and its Spec `ref_client_result_rtu`
+(Properties/C04_SystemRtu.v), both evaluated in Coq (Model/SystemClientRtuEval.v).
 """
 import vlib
 
@@ -167,11 +174,12 @@ def gen_cases(ctx, quick):
         if lit is None:
             lit = r.randrange(2)
         lit = lit if k in (1, 2, 3, 4) else 0
+        style = r.choice([0, 0, 1, 2])
         if f is None:
             f = 'R' if rtu_deliverable(pdu) and r.random() < 0.5 else 'T'
         if f == 'R' and not rtu_deliverable(pdu):
             f = 'T'
-        cases.append((f, k, r.choice([0, 1, 17, 247, 255, r.randrange(256)]) if u is None else u, s, n, tuple(pdu), lit))
+        cases.append((f, k, r.choice([0, 1, 17, 247, 255, r.randrange(256)]) if u is None else u, s, n, tuple(pdu), lit, style))
 
     # corpus
     add(1, 10, 3, [1, 1, 5], 'T', 1)
@@ -251,15 +259,23 @@ def gen_cases(ctx, quick):
     return out
 
 
+STYLE_SUFFIX = {0: '', 1: 'c', 2: 'x'}
+STYLE_NAME = {0: 'channel', 1: 'callback', 2: 'ffi'}
+
+
 def line(c):
-    f, k, u, s, n, pdu, lit = c
+    f, k, u, s, n, pdu, lit, style = c
     vals = 's0' if k in (15, 16) else '-'
-    return f'{f} {k}{"r" if lit else ""} {u} {s} {n} {vals} ' + (''.join(f'{b:02X}' for b in pdu) or '-')
+    return f'{f}{STYLE_SUFFIX[style]} {k}{"r" if lit else ""} {u} {s} {n} {vals} ' + (''.join(f'{b:02X}' for b in pdu) or '-')
+
+
+def hexnum(bs):
+    return f'({len(bs)}%nat, 0x{"".join("%02x" % b for b in bs) or "0"})'
 
 
 def to_coq(c):
-    f, k, u, s, n, pdu, lit = c
-    return f'({k}, {s}, {n}, ({len(pdu)}%nat, 0x{"".join("%02x" % b for b in pdu) or "0"}))'
+    f, k, u, s, n, pdu, lit, style = c
+    return f'({vlib.coq_bool(lit)}, {style}, {k}, {s}, {n}, {hexnum(pdu)})'
 
 
 def evaluate(ctx, cases, each=False):
@@ -288,16 +304,18 @@ def spec_ok(impl, spec):
 
 
 def shrink_candidates(c):
-    f, k, u, s, n, pdu, lit = c
+    f, k, u, s, n, pdu, lit, style = c
     if u != 1:
-        yield (f, k, 1, s, n, pdu, lit)
+        yield (f, k, 1, s, n, pdu, lit, style)
     if f == 'R':
-        yield ('T', k, u, s, n, pdu, lit)
+        yield ('T', k, u, s, n, pdu, lit, style)
+    if style:
+        yield (f, k, u, s, n, pdu, lit, 0)
     if lit:
-        yield (f, k, u, s, n, pdu, 0)
+        yield (f, k, u, s, n, pdu, 0, style)
     for i in range(min(len(pdu), 40)):
         if i >= 1 and pdu[i] != 0 and not (k not in (1, 2, 3, 4) and i <= 4):
-            yield (f, k, u, s, n, pdu[:i] + (0,) + pdu[i + 1:], lit)
+            yield (f, k, u, s, n, pdu[:i] + (0,) + pdu[i + 1:], lit, style)
 
 
 def fails_spec(ctx, cs):
@@ -306,7 +324,145 @@ def fails_spec(ctx, cs):
 
 
 def jcase(c):
-    return [c[0], c[1], c[2], c[3], c[4], list(c[5]), c[6]]
+    return [c[0], c[1], c[2], c[3], c[4], list(c[5]), c[6], c[7]]
+
+
+# ---------------------------------------------------------------------------------------------
+# RTU end to end: raw byte chunks (Properties/C04_SystemRtu.v)
+# ---------------------------------------------------------------------------------------------
+def crc16(bs):
+    c = 0xFFFF
+    for b in bs:
+        c ^= b
+        for _ in range(8):
+            c = (c >> 1) ^ 0xA001 if c & 1 else c >> 1
+    return c
+
+
+def rtu_frame(addr, pdu):
+    c = crc16([addr] + list(pdu))
+    return [addr] + list(pdu) + [c & 255, c >> 8]
+
+
+def cut(r, bs, style):
+    if not bs:
+        return []
+    if style == 'whole':
+        return [bs]
+    if style == 'bytes':
+        return [[b] for b in bs]
+    k = r.randrange(1, 5)
+    pts = sorted(set(r.randrange(1, len(bs)) for _ in range(k))) if len(bs) > 1 else []
+    out, prev = [], 0
+    for p in pts + [len(bs)]:
+        out.append(bs[prev:p])
+        prev = p
+    return out
+
+
+def gen_rtu_cases(r, n):
+    cases = []
+    while len(cases) < n:
+        k = r.choice([1, 2, 3, 4, 5, 6, 15, 16])
+        if k in (5, 6):
+            s, cnt = r.randrange(65536), (r.randrange(2) if k == 5 else r.randrange(65536))
+        else:
+            cnt = r.choice([1, 2, 3, 8, 9, 16, 17, r.randrange(1, 60)])
+            cnt = min(cnt, LIMIT[k])
+            s = r.randrange(0, 65536 - cnt + 1)
+        unit = r.choice([1, 1, 17, 247])
+        g = genuine(r, k, s, cnt)
+        first = r.choice(['genuine', 'genuine', 'genuine', 'mutated', 'mutated', 'exception', 'other-unit', 'crc-damaged', 'crc-damaged', 'bit-flip',
+                          'truncated', 'unknown-fc', 'too-long-count', 'nothing'])
+        addr = unit
+        stream = []
+        if first == 'genuine':
+            stream = rtu_frame(addr, g)
+        elif first == 'mutated':
+            m = r.choice(mutations(r, k, s, cnt, g))
+            stream = rtu_frame(addr, m) if m else []
+        elif first == 'exception':
+            stream = rtu_frame(addr, [k | 0x80, r.choice(EX_CODES)])
+        elif first == 'other-unit':                       # the client does not compare the address byte (recorded observation)
+            stream = rtu_frame(r.choice([0, 2, 99, 255]), g)
+        elif first == 'crc-damaged':
+            stream = rtu_frame(addr, g)
+            stream[-r.choice([1, 2])] ^= 1 << r.randrange(8)
+        elif first == 'bit-flip':
+            stream = rtu_frame(addr, g)
+            stream[r.randrange(len(stream))] ^= 1 << r.randrange(8)
+        elif first == 'truncated':
+            stream = rtu_frame(addr, g)
+            stream = stream[:r.randrange(0, len(stream))]
+        elif first == 'unknown-fc':
+            stream = [addr, r.choice([0, 7, 8, 17, 43, 100, 127])] + [r.randrange(256) for _ in range(r.randrange(0, 8))]
+        elif first == 'too-long-count':
+            stream = [addr, r.choice([1, 2, 3, 4]), r.choice([252, 253, 255])] + [r.randrange(256) for _ in range(r.randrange(0, 20))]
+        tail = r.choice(['', '', 'noise', 'second-frame'])
+        if tail == 'noise':
+            stream = stream + [r.randrange(256) for _ in range(r.randrange(1, 6))]
+        elif tail == 'second-frame':
+            stream = stream + rtu_frame(addr, genuine(r, k, s, cnt))
+        fin = r.choice(['P', 'P', 'Z', 'E'])
+        chunks = cut(r, stream, r.choice(['whole', 'bytes', 'random', 'random', 'random']) if len(stream) < 60 else r.choice(['whole', 'random']))
+        cases.append({'kind': k, 'start': s, 'count': cnt, 'unit': unit, 'chunks': chunks, 'fin': fin, 'first': first, 'tail': tail,
+                      'style': r.choice([0, 0, 1, 2])})
+    return cases
+
+
+def rtu_line(c):
+    vals = 's0' if c['kind'] in (15, 16) else '-'
+    raw = 'raw:' + '+'.join(''.join('%02X' % b for b in ch) for ch in c['chunks']) + {'P': '', 'Z': '/Z', 'E': '/E'}[c['fin']]
+    return f'R{STYLE_SUFFIX[c["style"]]} {c["kind"]} {c["unit"]} {c["start"]} {c["count"]} {vals} {raw}'
+
+
+def rtu_coq(c):
+    return (f'({c["kind"]}, {c["start"]}, {c["count"]}, [{";".join(hexnum(ch) for ch in c["chunks"])}], '
+            f'{ {"P": 0, "Z": 1, "E": 2}[c["fin"]] })')
+
+
+def rtu_canon(i):
+    """the harness line seen through the verdict classes of Spec/SystemClientSpec.v"""
+    if i.startswith('OK ') or i.startswith('ERR Exception(') or i in ('PANIC', 'ERR ResponseTimeout'):
+        return i
+    if i.startswith('ERR BadFrame('):
+        return 'ERR BadFrame'
+    if i.startswith('ERR Io('):
+        return 'ERR Io'
+    if i.startswith('ERR ') and i[4:] in ('InsufficientBytes', 'TrailingBytes', 'ReplyEchoMismatch', 'UnknownResponseFunction', 'UnknownCoilState',
+                                           'CountOfZero', 'AddressOverflow', 'InsufficientBytesForByteCount'):
+        return 'ERR other'
+    return i
+
+
+def rtu_stream_family(ctx, n, cases=None):
+    cases = cases or gen_rtu_cases(ctx.rng, n)
+    impl = ctx.harness('cresp', [rtu_line(c) for c in cases])
+    ok = ctx.build_models(['Model.SystemClientRtuEval'])
+    both = ctx.coq_eval(['Base.Show', 'Model.ClientShow', 'Model.SystemClientRtuEval'], 'eval_rtu_syscase', [rtu_coq(c) for c in cases],
+                        case_type='rtu_syscase', per_shard=400) if ok else [None] * len(cases)
+    bad = 0
+    classes = {}
+    for c, i, b in zip(cases, impl, both):
+        got = rtu_canon(i)
+        classes['rtu-stream:' + c['first']] = classes.get('rtu-stream:' + c['first'], 0) + 1
+        classes['rtu-result:' + got.split(' ')[0] + (' ' + got.split(' ')[1].split('(')[0] if got.startswith('ERR') else '')] = \
+            classes.get('rtu-result:' + got.split(' ')[0] + (' ' + got.split(' ')[1].split('(')[0] if got.startswith('ERR') else ''), 0) + 1
+        classes['rtu-fin:' + c['fin']] = classes.get('rtu-fin:' + c['fin'], 0) + 1
+        if b is None:
+            continue
+        model, spec = b.split('|')
+        spec = model if spec == '=' else spec
+        if got != spec or got != model:
+            bad += 1
+            if bad <= 2:
+                key = f'client.rtu-stream.{c["first"]}.result-differs-from-the-spec' if got != spec else 'model-differs-from-impl'
+                ctx.violation(key, f'{KIND_NAME[c["kind"]]} ({c["start"]},{c["count"]}) to unit {c["unit"]} over RTU, line bytes in chunks '
+                              f'{["".join("%02X" % b for b in ch) for ch in c["chunks"]]} then {c["fin"]}: the client reports `{i[:80]}`, '
+                              f'Spec ref_client_result_rtu says `{spec[:80]}`, client_system_rtu says `{model[:80]}` [{rtu_line(c)[:200]}]',
+                              {'rtu_cases': [c], 'impl': i, 'spec': spec, 'model': model}, no_failing_input=(got == spec))
+    ctx.oblige('correspondence:rtu-byte-stream-vs-client_system_rtu-and-its-spec', bad == 0, f'{bad} of {len(cases)}')
+    return len(cases), classes
 
 
 def run(ctx):
@@ -318,8 +474,12 @@ def run(ctx):
     if not ctx.build_harness() or not models_ok:
         return
     quick = ctx.quick()
+    if ctx.replay and 'rtu_cases' in ctx.replay:
+        n_rtu, _ = rtu_stream_family(ctx, 0, cases=ctx.replay['rtu_cases'])
+        ctx.coverage.update({'evaluations': n_rtu, 'distinct_nontrivial': n_rtu, 'rule': 'replay of RTU byte-stream cases', 'samples': []})
+        return
     if ctx.replay and 'cases' in ctx.replay:
-        cases = [(c[0], int(c[1]), int(c[2]), int(c[3]), int(c[4]), tuple(c[5]), int(c[6]) if len(c) > 6 else 0) for c in ctx.replay['cases']]
+        cases = [(c[0], int(c[1]), int(c[2]), int(c[3]), int(c[4]), tuple(c[5]), int(c[6]) if len(c) > 6 else 0, int(c[7]) if len(c) > 7 else 0) for c in ctx.replay['cases']]
         results = evaluate(ctx, cases, each=True)
     else:
         cases = gen_cases(ctx, quick)
@@ -338,13 +498,14 @@ def run(ctx):
         bump(f'reply:{cl}')
         bump(f'kind:{KIND_NAME[c[1]]}')
         bump('framing:' + ('tcp' if c[0] == 'T' else 'rtu'))
+        bump('style:' + STYLE_NAME[c[7]])
         if c[1] in (1, 2, 3, 4):
             bump('range:' + ('struct-literal' if c[6] else 'try_from'))
         bump('result:' + (impl.split('(')[0] if impl.startswith('ERR') else impl.split(' ')[0]))
         bump(f'len:{"0" if not c[5] else "1-5" if len(c[5]) <= 5 else "6-251" if len(c[5]) < 252 else "252-253"}')
         if not spec_ok(impl, spec):
             n_spec += 1
-            key = f'client.{KIND_NAME[c[1]]}.reply-{cl}' + ('.range-literal' if c[6] else '')
+            key = f'client.{KIND_NAME[c[1]]}.reply-{cl}' + ('.range-literal' if c[6] else '') + ('.' + STYLE_NAME[c[7]] if c[7] else '')
             if key not in reported and len(reported) < 6:
                 reported.add(key)
                 small = c
@@ -353,9 +514,9 @@ def run(ctx):
                     si, sm, ss = evaluate(ctx, [small], each=True)[0]
                 else:
                     si, sm, ss = impl, model, spec
-                what = (f'{KIND_NAME[small[1]]}{" (AddressRange struct literal)" if small[6] else ""} start={small[3]} count/value={small[4]} unit={small[2]} over {"TCP" if small[0] == "T" else "RTU"}, reply PDU '
+                what = (f'{KIND_NAME[small[1]]}{" (AddressRange struct literal)" if small[6] else ""} via {STYLE_NAME[small[7]]} API start={small[3]} count/value={small[4]} unit={small[2]} over {"TCP" if small[0] == "T" else "RTU"}, reply PDU '
                         f'{"".join("%02X" % b for b in small[5])[:80] or "(empty)"} ({classify(small)}): client returned `{si[:80]}` but the Spec says `{ss[:80]}`')
-                ctx.violation(f'client.{KIND_NAME[small[1]]}.reply-{classify(small)}' + ('.range-literal' if small[6] else ''), what,
+                ctx.violation(f'client.{KIND_NAME[small[1]]}.reply-{classify(small)}' + ('.range-literal' if small[6] else '') + ('.' + STYLE_NAME[small[7]] if small[7] else ''), what,
                               {'cases': [jcase(small)], 'impl': si, 'spec': ss, 'model': sm, 'original_case': jcase(c)})
         elif impl != model:
             n_model += 1
@@ -375,14 +536,24 @@ def run(ctx):
                 'reply:echo-invalid-range', 'reply:bad-coil-value', 'reply:empty', 'result:OK', 'result:ERR Exception', 'result:ERR TrailingBytes',
                 'result:ERR InsufficientBytes', 'result:ERR ReplyEchoMismatch', 'result:ERR UnknownResponseFunction', 'result:ERR UnknownCoilState',
                 'result:ERR CountOfZero', 'result:ERR AddressOverflow', 'framing:rtu', 'framing:tcp', 'len:252-253', 'len:0',
-                'reply:request-invalid', 'result:REJECTED', 'range:struct-literal', 'range:try_from']
+                'reply:request-invalid', 'result:REJECTED', 'range:struct-literal', 'range:try_from', 'style:channel', 'style:callback', 'style:ffi']
         missing = [n for n in need if classes.get(n, 0) < 3]
-        unexpected = [k for k in classes if k.startswith('result:') and k.split(':')[1] in ('PANIC', 'BADLINE', 'OKX', 'ERR ResponseTimeout', 'ERR BadFrame')]
+        unexpected = [k for k in classes if k.startswith('result:') and k.split(':')[1] in ('PANIC', 'BADLINE', 'OKX', 'ERR ResponseTimeout', 'ERR BadFrame', 'ERR LOST', 'ERR HUNG')]
         ctx.oblige('generator-reaches-expected-classes', not missing and not unexpected, f'missing={missing} unexpected={unexpected}')
+    n_rtu = 0
+    if not ctx.replay:
+        n_rtu, rtu_classes = rtu_stream_family(ctx, 700 if quick else 12000)
+        classes.update(rtu_classes)
+        need_rtu = ['rtu-stream:' + x for x in ('genuine', 'mutated', 'exception', 'other-unit', 'crc-damaged', 'bit-flip', 'truncated', 'unknown-fc',
+                                                'too-long-count', 'nothing')] + \
+                   ['rtu-result:OK', 'rtu-result:ERR Exception', 'rtu-result:ERR other', 'rtu-result:ERR BadFrame', 'rtu-result:ERR Io',
+                    'rtu-result:ERR ResponseTimeout']
+        miss = [x for x in need_rtu if classes.get(x, 0) < 3]
+        ctx.oblige('rtu-stream-generator-reaches-expected-classes', not miss and 'rtu-result:PANIC' not in classes, f'missing={miss}')
     ctx.coverage.update({
-        'evaluations': len(cases),
+        'evaluations': len(cases) + n_rtu,
         'distinct_nontrivial': len({c for c in cases if len(c[5]) >= 2}),
-        'rule': 'cases (framing, kind, unit, start, count|value, reply PDU, range-is-struct-literal) from a seeded PRNG: F10 corpus (unvalidated range literals must be rejected), for every request kind and boundary range the genuine reply and its mutations (truncation, extension, function byte, byte-count byte, data bits, echo fields, coil raw value, exception replies) plus random PDUs of length 0..253; non-trivial = PDU of at least two bytes; distinct by value. RTU framing only where the RTU response parser delimits the PDU as such',
+        'rule': 'cases (framing, kind, unit, start, count|value, reply PDU, range-is-struct-literal) from a seeded PRNG: F10 corpus (unvalidated range literals must be rejected), for every request kind and boundary range the genuine reply and its mutations (truncation, extension, function byte, byte-count byte, data bits, echo fields, coil raw value, exception replies) plus random PDUs of length 0..253; non-trivial = PDU of at least two bytes; distinct by value. RTU framing only where the RTU response parser delimits the PDU as such. Plus the RTU byte-stream family: raw chunked line bytes (genuine / mutated / exception / other unit / CRC damaged / bit flip / truncated / unknown function / over-long count / nothing, with noise or a second frame behind, then pending / EOF / error) vs client_system_rtu and ref_client_result_rtu',
         'samples': [[line(c)[:100], r[0][:60]] for c, r in list(zip(cases, results))[:8]],
         'input_classes': classes,
         'exhaustive': False,
